@@ -3,7 +3,8 @@
    (regex level, over the terms generated from the source on this run) and
    Proof/C10CallSites.v (composition with the code around each gate). *)
 From Coq Require Import List NArith.
-From WV Require Import Lib.Regex Gen.GenRegex Spec.Grammar Proof.C10Gates.
+From WV Require Import Lib.Regex Lib.PyBytes Gen.GenRegex Spec.Grammar Proof.C10Gates Proof.C10CallSites
+  Model.Receiver Model.Parser.
 Import ListNotations.
 Local Open Scope N_scope.
 
@@ -31,3 +32,36 @@ Theorem C10_request_line : forall s, bytes_ok s -> Lang no_crlf s ->
   (Lang gate_request_line s /\ Lang upper_method_prefix s <-> Lang spec_request_line s).
 Proof. exact request_line_exact. Qed.
 Print Assumptions C10_request_line.
+
+(* ---- call-site layer: the verdict of the code around each gate ---- *)
+
+(* a chunk control line is accepted by the receiver iff it is chunk-size [chunk-ext] *)
+Theorem C10_chunk_line_callsite : forall line, bytes_ok line ->
+  (chunk_line_accepts line = true <-> Lang spec_chunk_line line).
+Proof. exact chunk_line_callsite. Qed.
+Print Assumptions C10_chunk_line_callsite.
+
+(* every line the header splitter hands to the header gate is accepted iff it
+   is token ":" OWS field-value OWS *)
+Theorem C10_header_line_callsite : forall header lines,
+  get_header_lines header = inr lines ->
+  forall line, In line lines -> bytes_ok line ->
+  (header_line_accepts line = true <-> Lang spec_header_field line).
+Proof. exact header_line_callsite. Qed.
+Print Assumptions C10_header_line_callsite.
+
+Theorem C10_content_length_callsite : forall v, bytes_ok v -> has_cr_or_lf v = false ->
+  (matches gate_content_length v = true <-> Lang spec_content_length v).
+Proof. exact content_length_callsite. Qed.
+Print Assumptions C10_content_length_callsite.
+
+(* numeric conversion after the gates is the positional value *)
+Theorem C10_chunk_size_value : forall s x,
+  hex_value (s ++ [x]) = (16 * hex_value s + match hexval x with Some v => v | None => 0 end)%N.
+Proof. exact chunk_size_value_positional. Qed.
+Print Assumptions C10_chunk_size_value.
+
+Theorem C10_content_length_value : forall s x,
+  dec_value (s ++ [x]) = (10 * dec_value s + (x - 48))%N.
+Proof. exact content_length_value_positional. Qed.
+Print Assumptions C10_content_length_value.
